@@ -272,6 +272,7 @@ func havocAlloc(st *State) {
 	for _, k := range []string{allocKey, allocAKey} {
 		old := st.H(k, allocSort)
 		nw := Fresh("alloc", allocSort)
+		st.assume(Not(Select(nw, IntLit(0)))) // nil is never an allocated object
 		r := Bound("r", SInt)
 		st.assume(Forall([]*Term{r}, Implies(Select(old, r), Select(nw, r)), []*Term{Select(nw, r)}, []*Term{Select(old, r)}))
 		st.setH(k, nw)
